@@ -24,6 +24,7 @@ type Obligation struct {
 	Cover  bool // a cover query: prefix ∧ Reach must be SAT
 	enc    *fnEnc
 	NoAxioms bool
+	Cases  []string // case split: the obligation is discharged per case (the cases cover Reach)
 	Extra  []string // extra assertions (known-finding class negation etc.)
 }
 
@@ -77,6 +78,7 @@ type fnEnc struct {
 	ghostVars map[string]Term // ghost (function-level) variables
 	implFns   map[string]*types.Interface
 	embIDs    map[string]int
+	invUse    map[string]bool
 
 	deferred map[*ssa.BasicBlock][]*ssa.Defer // not path sensitive: in order of appearance
 	curBlock *ssa.BasicBlock
@@ -124,10 +126,13 @@ type fieldInfo struct {
 type state struct {
 	m     map[string]Term
 	alloc Term // allocation counter
+	// lazy join: components not mentioned in m take, under cond[i], the value they have in from[i]
+	lazyFrom []*state
+	lazyCond []Term
 }
 
 func (s *state) clone() *state {
-	n := &state{m: make(map[string]Term, len(s.m)), alloc: s.alloc}
+	n := &state{m: make(map[string]Term, len(s.m)), alloc: s.alloc, lazyFrom: s.lazyFrom, lazyCond: s.lazyCond}
 	for k, v := range s.m {
 		n.m[k] = v
 	}
@@ -643,7 +648,9 @@ func (e *fnEnc) embApp(si *structInfo, i int, obj Term) Term {
 	if !e.declSeen[key] {
 		e.declSeen[key] = true
 		inv := sym("emb." + si.name + "." + si.fields[i].name + ".inv")
-		fact := and(eq(app(SInt, inv, t), obj), eq(app(SInt, "embtag", t), intLit(int64(e.embIDs[f]))), lt(t, intLit(0)))
+		rootf := e.declareFun("rootobj", []Sort{SInt}, SInt)
+		fact := and(eq(app(SInt, inv, t), obj), eq(app(SInt, "embtag", t), intLit(int64(e.embIDs[f]))), lt(t, intLit(0)),
+			eq(app(SInt, rootf, t), ite(lt(intLit(0), obj), obj, app(SInt, rootf, obj))))
 		if strings.Contains(obj.S, "q.") || strings.Contains(obj.S, "r.") {
 			// argument mentions a bound variable: no ground instance possible
 		} else {
